@@ -3,9 +3,11 @@
     sumbool, sumor; no Extract Constant).  N / Z / nat stay the extracted inductive datatypes. *)
 From Coq Require Extraction.
 From Coq Require Import ExtrOcamlBasic.
-From HC Require Import Base.HBytes Model.Tlv8.
+From HC Require Import Base.HBytes Model.Tlv8 Model.Storage.
 Extraction Language OCaml.
 Set Extraction KeepSingleton.
 Separate Extraction
   Z.add Z.mul N.add N.mul N.div N.modulo
-  Tlv8.set_bytes Tlv8.set_byte Tlv8.serialise Tlv8.parse Tlv8.get_bytes Tlv8.get_byte.
+  Tlv8.set_bytes Tlv8.set_byte Tlv8.serialise Tlv8.parse Tlv8.get_bytes Tlv8.get_byte
+  Storage.st_set Storage.st_get Storage.st_delete Storage.st_keys Storage.entity_key Storage.db_load
+  Storage.db_list Storage.fs_get Storage.multi_ops Storage.apply_ops Storage.set_ops Storage.sanitize.
